@@ -337,13 +337,18 @@ def redock_rule(ctx, d5, subs):
             stores = [e for e in p.events if e.kind == 'store' and e.target == '%s.%s' % (sp, side)]
             removes = [e for e in p.events if e.kind == 'call' and e.target.endswith('.remove')
                        and e.value and e.value[0] == Form.atom(sp)]
-            was_docked = implied(p.conds, lambda e: src(e).startswith(sp + ' in '))
-            same_list = implied(p.conds, lambda e: isinstance(e, ast.Compare) and isinstance(e.ops[0], ast.IsNot)
-                                and src(e.comparators[0]) == 'self')
-            old_truthy = None
-            for t, taken in p.conds:
-                if not isinstance(t, str) and isinstance(t, ast.Name):
-                    old_truthy = taken
+            def both(pos, neg):
+                a = implied(p.conds, pos)
+                if a is not None:
+                    return a
+                b = implied(p.conds, neg)
+                return None if b is None else not b
+            # (each fact may be tested in either polarity: `x in l` / `x not in l`, `l is not self` / `l is self`, `owner` / `not owner`)
+            was_docked = both(lambda e: isinstance(e, ast.Compare) and len(e.ops) == 1 and isinstance(e.ops[0], ast.In) and src(e.left) == sp,
+                              lambda e: isinstance(e, ast.Compare) and len(e.ops) == 1 and isinstance(e.ops[0], ast.NotIn) and src(e.left) == sp)
+            same_list = both(lambda e: isinstance(e, ast.Compare) and len(e.ops) == 1 and isinstance(e.ops[0], ast.IsNot) and src(e.comparators[0]) == 'self',
+                             lambda e: isinstance(e, ast.Compare) and len(e.ops) == 1 and isinstance(e.ops[0], ast.Is) and src(e.comparators[0]) == 'self')
+            old_truthy = implied(p.conds, lambda e: isinstance(e, ast.Name))
             desc = 'path %d (old owner %s, other list %s, listed there %s)' % (i, old_truthy, same_list, was_docked)
             # result docked here
             if stores:
